@@ -11,7 +11,8 @@ RULE = ("every graph with 1..2 nodes over 14 types + missing + unsupported type 
         "included) x dotted/undotted names x registry {absent, matching, missing pin, mistyped pin}; seeded random "
         "3..5-node ill-formed graphs; each under all 16 flag combinations; plus lint-clean generated circuits and "
         "outputs of logic generators / transforms (must pass); non-trivial = the spec finds at least one violation "
-        "or the graph has an edge")
+        "or the graph has an edge"
+        "; plus: fully connected add_subcircuit / add_blackbox+fill_blackbox compositions of random lint-clean circuits (feed-through pins, nested instances) must be lint-clean")
 BOUND = "<=2 nodes exhaustive, <=5 nodes random; 16 flag combinations; 4/16 hash seeds"
 FLAGS = list(itertools.product((False, True), repeat=4))
 
@@ -81,6 +82,25 @@ def cases(tier, seed):
         yield {"kind": "parse", "text": vlog.render(nl, None), "bbs": nl["bbs"]}
     yield {"kind": "lib", "f": "half_adder", "w": 0}
     yield {"kind": "lib", "f": "full_adder", "w": 0}
+    # fully connected compositions: every child input driven from the parent, every child output into a fresh buf
+    for i in range(120 if tier == "quick" else 2500):
+        via = "add_subcircuit" if i % 3 else "fill_blackbox"
+        parent = gen.random_circuit(rng, n_in=rng.randint(1, 3), n_gates=rng.randint(1, 4), max_fanin=3, p_const=0.2,
+                                    n_bb=rng.choice([0, 0, 1]), p_out=0.4)
+        child = gen.random_circuit(rng, n_in=rng.randint(1, 3), n_gates=rng.randint(1, 3), max_fanin=3, p_const=0.3,
+                                   n_bb=rng.choice([0, 0, 0, 1]), p_out=0.5, name="child",
+                                   allow_input_output=(via == "add_subcircuit" and rng.random() < 0.5))
+        drivers = [r[0] for r in parent["nodes"] if r[1] not in ("bb_input", "bb_output")]
+        gates_first = [r[0] for r in parent["nodes"] if r[1] in gen.MULTI] or drivers
+        conns, outbufs = {}, []
+        for r in child["nodes"]:
+            if r[1] == "input":
+                conns[r[0]] = rng.choice(gates_first if r[2] else drivers)   # a feed-through pin is driven by a parent gate
+            elif r[2]:
+                outbufs.append(f"pb{len(outbufs)}")
+                conns[r[0]] = outbufs[-1]
+        yield {"kind": "compose", "via": via, "parent": parent, "child": child, "name": rng.choice(["s", "u0", "core_u0"]),   # (a dotted instance name makes dotted net names: not a lint-clean request)
+               "conns": conns, "outbufs": outbufs}
 
 
 def run_case(case):
@@ -94,6 +114,31 @@ def run_case(case):
         lv = spec.lint_violations(c)
         if lv:
             fails.append({"kind": "parser-output-not-lintclean", "msg": f"{lv[:3]}\n{case['text']}"})
+        return {"nontrivial": True, "failures": fails}
+    if case["kind"] == "compose":
+        p, ch = circ.build(case["parent"]), circ.build(case["child"])
+        if spec.lint_violations(p) or spec.lint_violations(ch) or (case["via"] == "fill_blackbox" and ch.inputs() & ch.outputs()):
+            return {"nontrivial": False, "failures": []}
+        for b in case["outbufs"]:
+            p.add(b, "buf", output=True)
+        try:
+            if case["via"] == "add_subcircuit":
+                p.add_subcircuit(ch, case["name"], dict(case["conns"]))
+            else:
+                if not ch.outputs():
+                    return {"nontrivial": False, "failures": []}
+                p.add_blackbox(circ.blackbox("implbb", sorted(ch.inputs()), sorted(ch.outputs())), case["name"], dict(case["conns"]))
+                p.fill_blackbox(case["name"], ch)
+        except ValueError:
+            return {"nontrivial": False, "failures": []}   # a rejected composition produces nothing (C06 / C07 decide whether it may be rejected)
+        lv = spec.lint_violations(p)
+        if lv:
+            fails.append({"kind": f"composition-not-lintclean:{case['via']}", "msg": f"{lv[:3]} connections={case['conns']}"})
+        try:
+            cg.lint(p)
+        except ValueError as e:
+            if not lv:
+                fails.append({"kind": "lint-rejects-clean-circuit", "msg": f"composition: {e}"})
         return {"nontrivial": True, "failures": fails}
     if case["kind"] == "lib":
         w = case["w"]
